@@ -6,7 +6,7 @@ PROP = dict(
   explanation='Per-function contracts on the text extracted from /repo, discharged by cbmc for all inputs (loop in grow cut by an inductive invariant: unbounded). '
               'The step from these contracts to linearizability of concurrent histories is the published argument of the Chase-Lev deque and is an assumption.',
   assumptions=['composition lemma: Chase & Lev 2005 / Le et al. 2013 linearizability argument, not machine checked',
-               'capacities 2^1..2^29 (the int shift 1 << bucket in get_entry/grow overflows for 2^31; outside practical range)',
+               'capacities 2^1..2^31 = max_capacity (default MaxCapacity; every capacity the container can reach)',
                'top <= bottom as 64-bit counters (no wrap of 2^64 pushes)'],
   trusted_base=[],
 )
